@@ -1050,7 +1050,7 @@ def _same_ptr(a, b):
 
 
 def _last(t):
-    t = strip_generics(t or "").strip().lstrip("&").replace("mut ", "").replace("dyn ", "").strip()
+    t = re.sub(r"'\w+\s+", "", strip_generics(t or "").strip().lstrip("&")).replace("mut ", "").replace("dyn ", "").strip()
     return t.split("::")[-1]
 
 
